@@ -94,3 +94,15 @@ Proof.
   intros s1 e s2 handle H. apply x_main_collect_ok_iff in H. destruct H as [H _].
   unfold has_error in H. rewrite existsb_app in H. cbn in H. now rewrite Bool.orb_true_r in H.
 Qed.
+
+(* ------------------------------------------------------------------ *)
+(* parblock's block job: what each answer of the kernel copy does       *)
+(* ------------------------------------------------------------------ *)
+From Coq Require Import String.
+(* a failing call (`Err(e)`) and a premature end of the source (`Ok(0)` before the end of the file) each send an Error
+   update — the job's pool thread returns nothing, so that update is its only report; with x_error_update_reaches_exit
+   it makes the exit status non-zero.  A zero-byte answer at or after the end of the source ends the job normally;
+   progress goes on. *)
+Theorem x_block_job_arms_ok :
+  x_block_job_arms = [("Ok(0)ifoff+done>=harc.metadata.len()", 0); ("Ok(0)", 1); ("Ok(copied)", 2); ("Err(e)", 1)]%string.
+Proof. reflexivity. Qed.
